@@ -10,7 +10,7 @@ from sim import devices
 from sim.canon import (Log, snapshot, canon_row, canon_cell, dec_table,
                        enc_table)
 from sim.catalogue import RECIPES, NAMES
-from sim.core import outcome, draw_config
+from sim.core import outcome, draw_config, not_a_harness_bug
 from sim.gen import gen_table, gen_sorted_table
 from sim.loader import load_petl
 from sim.sched import Sched, Violation, gen_schedule
@@ -190,7 +190,7 @@ def run_case(case):
                                           wrap_sources=case.get('wrap',
                                                                 False))
             except Exception as ex:
-                why = type(ex).__name__
+                why = type(not_a_harness_bug(ex)).__name__
             if why is not None:
                 gc.collect()
                 return outcome('trivial', digest=log.hexdigest(),
